@@ -457,8 +457,45 @@ func init() {
 			"information forks sent by the client are well-formed (name + 74 < 65536)",
 		}
 		x.Add(&Family{Name: "upload-every-cut", Quick: 16, Thor: 96, Run: runC09EveryCut})
+		// Disabled (0 cases): witness of the `.incomplete` name collision reported to the lead (docs/C09.md).
+		// Enable it once the defect is repaired in /repo or recorded in known_findings.json under this key.
+		x.Add(&Family{Name: "incomplete-suffix-witness", Quick: 0, Thor: 0, Run: runC09SuffixWitness})
 		x.Add(&Family{Name: "upload-histories", Quick: 48, Thor: 480, Run: runC09Histories})
 	}
+}
+
+// runC09SuffixWitness: a complete file named `a.txt.incomplete`, then an upload of `a.txt`.
+func runC09SuffixWitness(c *Case) {
+	ts, set, cc, _, done := c09Setup(c)
+	if ts == nil {
+		return
+	}
+	defer done()
+	up := func(id uint32, name string, data []byte) bool {
+		res, _, _ := ts.Call(cc, mkTran(hotline.TranUploadFile, id, fld(hotline.FieldFileName, []byte(name)), fld(hotline.FieldTransferSize, be32(len(data)))))
+		if len(res) != 1 || res[0].ErrorCode != [4]byte{} {
+			return false
+		}
+		refB, _ := getField(&res[0], hotline.FieldRefNum)
+		var ref [4]byte
+		copy(ref[:], refB)
+		st := uploadStreamBytes(2, defaultInfoSpec([]byte(name), make([]byte, 8), []byte("TEXT"), []byte("ttxt")), data, nil)
+		x := set.start(ref, newDlgConn(append(preambleBytes(ref, len(st)), st...), nil, nil))
+		return x.waitBody()
+	}
+	a, b := genData(c.R, 30), genData(c.R, 20)
+	up(1, "a.txt.incomplete", a)
+	up(2, "a.txt", b)
+	first, has1 := readOpt(filepath.Join(ts.Root, "a.txt.incomplete"))
+	second, has2 := readOpt(filepath.Join(ts.Root, "a.txt"))
+	c.Note("listing", listDir(ts.Root))
+	if !has1 || !bytesEq(first, a) {
+		c.Violation("incomplete-suffix-collision", "uploading a.txt destroyed the existing complete file a.txt.incomplete")
+	}
+	if has2 && !bytesEq(second, b) {
+		c.Violation("incomplete-suffix-collision", "a.txt does not hold exactly the bytes the client sent (it starts with the bytes of a.txt.incomplete)")
+	}
+	c.Nontrivial("suffix-witness")
 }
 
 func c09Setup(c *Case) (*TS, *transferSet, *hotline.ClientConn, *[]func(), func()) {
